@@ -70,7 +70,7 @@ add_int_binop!(
             Err(ManagedXError::new("Modulo by zero", rt.clone())?)
         } else {
             rt.can_afford(b)?;
-            Ok(XValue::Int(a.clone() % b.clone()))
+            Ok(XValue::Int(a.clone().mod_floor(b.clone())))
         })
     }
 );
